@@ -11,6 +11,24 @@ class TooManyPaths(AnalysisBroken):
     pass
 
 
+def kills(ev):
+    """terms whose value an event may change (facts mentioning them are forgotten): the assigned lvalue; for a call to a
+    non-const function its receiver and every object passed by pointer or reference"""
+    if ev.kind in ('assign', 'incdec'):
+        return [ev.lhs]
+    if ev.kind == 'call' and not (ev.key or '').endswith(')const'):
+        w = []
+        if ev.obj is not None:
+            w.append(ev.obj)
+        for a in ev.args or ():
+            if a[0] == 'un' and a[1] == '&':
+                a = a[2]
+            if a[0] in ('var', 'field', 'this'):
+                w.append(a)
+        return w
+    return []
+
+
 class Ev:
     """one event of a path, in normal form"""
     __slots__ = ('kind', 'op', 'lhs', 'rhs', 'q', 'key', 'obj', 'args', 'atom', 'pol', 'val', 'eid', 'line', 'fn',
@@ -116,10 +134,7 @@ class FnView:
         if w is None:
             w = []
             for ev in self.events_of(eid):
-                if ev.kind in ('assign', 'incdec'):
-                    w.append(ev.lhs)
-                elif ev.kind == 'call' and ev.obj is not None and not (ev.key or '').endswith(')const'):
-                    w.append(ev.obj)
+                w.extend(kills(ev))
             self._writes[eid] = w
         return w
 
